@@ -112,6 +112,44 @@ def run_process_test(bindir, cfg_path, timeout=20):
     return "rejected", p.stdout.decode("utf-8", "replace")[-200:]
 
 
+_ECHO = []
+
+
+def echo_port():
+    """one echo server for the whole check: a tunnel that is really established and carries bytes"""
+    import socket, threading
+    if _ECHO:
+        return _ECHO[0]
+    srv = socket.socket()
+    srv.setsockopt(socket.SOL_SOCKET, socket.SO_REUSEADDR, 1)
+    srv.bind(("127.0.0.1", 0))
+    srv.listen(64)
+
+    def serve(c):
+        try:
+            c.settimeout(5)
+            while True:
+                d = c.recv(4096)
+                if not d:
+                    break
+                c.sendall(d)
+        except OSError:
+            pass
+        finally:
+            c.close()
+
+    def loop():
+        while True:
+            try:
+                c, _ = srv.accept()
+            except OSError:
+                return
+            threading.Thread(target=serve, args=(c,), daemon=True).start()
+    threading.Thread(target=loop, daemon=True).start()
+    _ECHO.append(srv.getsockname()[1])
+    return _ECHO[0]
+
+
 def probe_running(wd, name, doc, ports, sweep=True):
     """start the proxy with an accepted configuration and send one request to its http and socks listeners"""
     import socket
@@ -130,7 +168,7 @@ def probe_running(wd, name, doc, ports, sweep=True):
     why = ""
     try:
         for port, data in ((ports[1], b"CONNECT 127.0.0.1:9 HTTP/1.1\r\n\r\n"), (ports[1], b"CONNECT 127.0.0.1:9 HTTP/1.1\r\n\r\n"), (ports[1], b"CONNECT 127.0.0.1:9 HTTP/1.1\r\n\r\n"),
-                           (ports[1], b"CONNECT localhost:80 HTTP/1.1\r\n\r\n"), (ports[1], b"CONNECT localhost:443 HTTP/1.1\r\n\r\n"), (ports[3], b"\x05\x01\x02\x01\x01a\x01a\x05\x01\x00\x01\x7f\x00\x00\x01\x00\x09"),
+                           (ports[1], b"CONNECT 127.0.0.1:%d HTTP/1.1\r\n\r\n" % echo_port()), (ports[1], b"CONNECT 127.0.0.1:%d HTTP/1.1\r\n\r\n" % echo_port()), (ports[1], b"CONNECT localhost:80 HTTP/1.1\r\n\r\n"), (ports[1], b"CONNECT localhost:443 HTTP/1.1\r\n\r\n"), (ports[3], b"\x05\x01\x02\x01\x01a\x01a\x05\x01\x00\x01\x7f\x00\x00\x01\x00\x09"),
                            (ports[3], b"\x05\x01\x02\x01\x01b\x01b\x05\x01\x00\x01\x7f\x00\x00\x01\x00\x09")):
             try:
                 s = socket.create_connection(("127.0.0.1", port), timeout=3)
@@ -140,8 +178,14 @@ def probe_running(wd, name, doc, ports, sweep=True):
             s.sendall(data)
             try:
                 got = s.recv(4096)
-                if not got:
-                    pass
+                if got.startswith(b"HTTP/1.1 200") and b":%d " % echo_port() in data:
+                    # an established tunnel: bytes both ways (the copy loops run with the configured io parameters)
+                    s.settimeout(3.0)
+                    s.sendall(b"ping" * 64)
+                    try:
+                        s.recv(4096)
+                    except OSError:
+                        pass
             except socket.timeout:
                 res, why = "request-never-answered", "listener on port %d gave no reply within 6 s" % port
             except OSError:
